@@ -3,14 +3,18 @@
    Proved for every tree and argument: the page bound. Proved for every tree (any depth, any number of keys,
    files and directory objects): the unpaginated listing is exactly the tree's keys, each once, in directory
    order; for order-compatible trees that is the S3 listing rule (ascending key order).
-   Not proved (stated here so it stays visible): the refinement with prefix, delimiter, marker and truncation,
+   Proved as well, for every order-compatible tree, EVERY marker and EVERY page size (no prefix, no delimiter): one page of the real walk
+   is exactly the page the S3 rule demands (C07_paginated_refines: the first max keys strictly after the marker, truncated iff keys
+   remain, next marker = last key of the page), and following the markers from the empty one visits every key exactly once, in order
+   (C07_pagination_complete).
+   Not proved (stated here so it stays visible): the refinement with prefix and delimiter as well,
      forall t pre dl mk mx, names_ok t -> order_compatible t ->
        walk t pre dl mk mx skipdirs fl = Some (s3_list (sorted keys t) pre dl mk mx)
    which is checked on every run by evaluation (Check/WalkCheck.v page_spec_ok / pages_spec_ok) on generated
    trees and on the implementation's pages, and is false for trees whose directory order is not key order
    (known finding c07:order-incompatible-tree, witness below). *)
 From Coq Require Import String Ascii List Arith Bool.
-From VGW Require Import Base.GoStr Model.Walk Spec.ListSpec Proofs.WalkProof Proofs.WalkFlat Proofs.WalkRefine.
+From VGW Require Import Base.GoStr Model.Walk Spec.ListSpec Proofs.WalkProof Proofs.WalkFlat Proofs.WalkRefine Proofs.WalkPage.
 Import ListNotations.
 Open Scope string_scope.
 
@@ -34,6 +38,20 @@ Theorem C07_unpaginated_refines_partial : forall b kids max, names_ok (D b kids)
 Proof. exact unpaginated_refines. Qed.
 Print Assumptions C07_unpaginated_refines_partial.
 
+(* pagination. Order compatibility is asked of all nodes of the tree (files and directories, a directory compared as "path/"),
+   which is how the walk compares them with the marker. *)
+Theorem C07_paginated_refines : forall b kids marker max, names_ok (D b kids) ->
+  sorted_b (map fst (nodes_at "." (D b kids))) = true ->
+  walk (D b kids) "" "" marker max [] true = Some (s3_list (sort_strs (keys_at "." (D b kids))) "" "" marker max).
+Proof. exact paginated_refines. Qed.
+Print Assumptions C07_paginated_refines.
+
+Theorem C07_pagination_complete : forall b kids max fuel, names_ok (D b kids) ->
+  sorted_b (map fst (nodes_at "." (D b kids))) = true -> 0 < max -> List.length (keys_at "." (D b kids)) < fuel ->
+  wpages (D b kids) "" max fuel = keys_at "." (D b kids).
+Proof. exact walk_pages_all. Qed.
+Print Assumptions C07_pagination_complete.
+
 (* the full statement is false of the faithful model on trees whose directory order is not key order:
    keys a/b, a-, ab ("-" sorts before "/"); the first page of size 1 names a/b, the S3 rule names a- *)
 Definition witness_tree : tree := D false [("a", D false [("b", F true)]); ("a-", F true); ("ab", F true)].
@@ -49,6 +67,15 @@ Theorem C07_pagination_cycle_refuted :
   (exists r3, walk witness_tree "" "" "a-" 1 [] true = Some r3 /\ r_next r3 = "a/b").
 Proof. repeat split; eexists; split; vm_compute; reflexivity. Qed.
 Print Assumptions C07_pagination_cycle_refuted.
+
+(* non-vacuity of the hypotheses of the pagination theorems: the example tree below is order compatible node by node, and its
+   pages of size 2 are a/, a/b then a/c, b.txt *)
+Example C07_example_pages :
+  let t := D false [("a", D true [("b", F true); ("c", F true)]); ("b.txt", F true)] in
+  sorted_b (map fst (nodes_at "." t)) = true /\
+  walk t "" "" "" 2 [] true = Some {| r_objs := ["a/"; "a/b"]; r_cps := []; r_trunc := true; r_next := "a/b" |} /\
+  walk t "" "" "a/b" 2 [] true = Some {| r_objs := ["a/c"; "b.txt"]; r_cps := []; r_trunc := false; r_next := "" |}.
+Proof. vm_compute. repeat split; reflexivity. Qed.
 
 (* non-vacuity of the hypotheses of the partial theorem *)
 Example C07_example_tree_ok :
